@@ -685,7 +685,7 @@ func c18Generate(r *Run) {
 	nrand := 160
 	nbatch := 6
 	if r.Tier == "thorough" {
-		nrand = 2500
+		nrand = 1200
 		nbatch = 40
 	}
 	var ops []map[string]interface{}
